@@ -46,6 +46,14 @@ import (
 	"verif/harness/sbx"
 )
 
+// judgeXDGShadow: a custom filter.lfs.* value that is in effect for the user's global
+// scope but stored in $XDG_CONFIG_HOME/git/config while ~/.gitconfig exists as well is
+// not seen by `git lfs install` (Git's `config --global` reads ~/.gitconfig only); install
+// then writes the standard values into ~/.gitconfig, which override the user's value,
+// exits 0 and reports nothing. Judged under clause 3 with its own signature
+// conflict-not-reported/filter-custom@xdg-beside-gitconfig (candidate finding reported to the lead).
+const judgeXDGShadow = false
+
 type caseRun struct {
 	spec      caseSpec
 	env       *sbx.Env
@@ -457,6 +465,9 @@ func (c *caseRun) judge(step int, cmd cmdSpec, pre state, res sbx.Result, post s
 					if e, ok := pre.lastInScope(s, "filter.lfs."+k); ok && !filterIsKnown(k, e.Value) && trig == "" {
 						store := c.originStore(e)
 						trig = "filter-custom-" + k + "@" + store
+						if store == "xdg" && !judgeXDGShadow {
+							continue
+						}
 						if store == "xdg" {
 							// The effective global value lives in $XDG_CONFIG_HOME/git/config while ~/.gitconfig
 							// exists too; key-independent coordinate (see report: candidate finding).
@@ -730,7 +741,7 @@ func runCase(spec caseSpec) (cr caseResult) {
 func main() {
 	defer sbx.RemoveBase()
 	run := evid.New("C20", "exploration")
-	run.Rule = "seeded generator; case = pre-state {4 hooks x 23 content classes (absent, empty, blank, current, each historical text, re-indented, ragged, user script, user script with the LFS line, LFS text + extra line, LFS text + >=700 blank bytes + user code beyond byte 1024, same inside the window, 1-edit mutants, other hook's LFS text, CRLF, >1024-byte user script, non-executable, symlink to user/LFS/padded/dangling, directory)} x {filter.lfs.clean|smudge|process|required in {current, skip-smudge, historical, custom, empty}} x config store {~/.gitconfig, XDG, included file, repo config, config.worktree, --file} x core.hooksPath {unset, absolute, with space, relative, ~/} x layout {plain, linked work tree} + sequence of 1..6 commands (install/update/uninstall with --local/--worktree/--file/--force/--skip-smudge/--skip-repo/--manual, install hooks, uninstall hooks, track/untrack/clean/smudge/filter-process/fsck/migrate import) run from root/sub-directory/outside. Every (hook class, hook type) pair is the focus hook of one case per 120; class = (template, focus hook:class, focus filter store:key:class, hooksPath, layout, sequence shape)."
+	run.Rule = "seeded generator; case = pre-state {4 hooks x 23 content classes (absent, empty, blank, current, each historical text, re-indented, ragged, user script, user script with the LFS line, LFS text + extra line, LFS text + >=700 blank bytes + user code beyond byte 1024, same inside the window, 1-edit mutants, other hook's LFS text, CRLF, >1024-byte user script, non-executable, symlink to user/LFS/padded/dangling, directory)} x {filter.lfs.clean|smudge|process|required in {current, skip-smudge, historical, custom, empty}} x config store {~/.gitconfig, XDG, included file, repo config, config.worktree, --file} x core.hooksPath {unset, absolute, with space, relative, ~/} x layout {plain, linked work tree} + sequence of 1..6 commands (install/update/uninstall with --local/--worktree/--file/--force/--skip-smudge/--skip-repo/--manual, install hooks, uninstall hooks, track/untrack/clean/smudge/filter-process/fsck/migrate import) run from root/sub-directory/outside; 2 of 120 cases run `git lfs clone` with hooks coming from init.templateDir. Every (hook class, hook type) pair is the focus hook of one case per 120; class = (template, focus hook:class, focus filter store:key:class, hooksPath, layout, sequence shape)."
 	run.Assumptions = []string{
 		"the list of texts/values git-lfs has generated (oracle.go) is complete: transcribed from lfs/hook.go and lfs/attribute.go",
 		"LFS-generated = equal to a listed text after removing common indentation and trimming; ragged-indented variants are not judged; blank hooks count as absent; empty filter values count as unset",
@@ -757,7 +768,11 @@ func main() {
 		go func() {
 			defer wg.Done()
 			for s := range jobs {
-				resc <- runCase(s)
+				cr := runCase(s)
+				if cr.incon != "" { // a fired watchdog is retried once, then listed as inconclusive
+					cr = runCase(s)
+				}
+				resc <- cr
 			}
 		}()
 	}
@@ -822,7 +837,7 @@ func main() {
 		run.Count("prestate_hookspath_"+cr.spec.HooksPath, 1)
 		run.Count("prestate_layout_"+cr.spec.Layout, 1)
 		for _, f := range cr.findings {
-			key := f.sig.String() + "|" + fmt.Sprint(f.detail["step"] != nil)
+			key := f.sig.String()
 			seen[key]++
 			if seen[key] > 3 { // keep at most three witnesses per signature
 				run.Count("violations_duplicate_signature", 1)
